@@ -38,6 +38,7 @@ type PropSpec struct {
 	Sweeps   []string // regexps over function keys: safety-only, zero-annotation
 	SweepTerm bool
 	Lemmas   []string
+	Ifaces   []string
 	Clauses  []ClauseRow
 	Assumes  []string
 	Bounded  []string
@@ -93,6 +94,8 @@ func LoadPropSpec(path string) (*PropSpec, error) {
 			ps.SweepTerm = true
 		case "lemma":
 			ps.Lemmas = append(ps.Lemmas, rest)
+		case "iface":
+			ps.Ifaces = append(ps.Ifaces, expandKey(rest))
 		case "clause":
 			fs := strings.SplitN(rest, " ", 3)
 			row := ClauseRow{Name: fs[0]}
@@ -242,9 +245,9 @@ func RunProperty(args []string) int {
 		return 2
 	}
 	defer os.RemoveAll(scratch)
-	qTimeout := 10 * time.Second
+	qTimeout := 30 * time.Second
 	if tier == "thorough" {
-		qTimeout = 120 * time.Second
+		qTimeout = 180 * time.Second
 	}
 	so := &SolveOpts{Dir: scratch, Timeout: qTimeout, FirstTry: 2 * time.Second, Workers: 4, WantModel: true}
 
@@ -293,11 +296,29 @@ func RunProperty(args []string) int {
 			v.VerifiedSeparately[w.key] = true
 		}
 	}
-	results := make([]*UnitResult, len(works))
+	type job func() *UnitResult
+	var jobs []job
+	var jobKeys []string
+	for _, w := range works {
+		w := w
+		jobs = append(jobs, func() *UnitResult { return v.VerifyFunc(w.fn, w.opts, so) })
+		jobKeys = append(jobKeys, w.key)
+	}
+	for _, ln := range ps.Lemmas {
+		ln := ln
+		jobs = append(jobs, func() *UnitResult { return v.ProveLemma(ln, so) })
+		jobKeys = append(jobKeys, "lemma:"+ln)
+	}
+	for _, ik := range ps.Ifaces {
+		ik := ik
+		jobs = append(jobs, func() *UnitResult { return v.VerifyIfaceContract(ik, so) })
+		jobKeys = append(jobKeys, "iface:"+ik)
+	}
+	results := make([]*UnitResult, len(jobs))
 	var wg sync.WaitGroup
-	sem := make(chan struct{}, 5)
-	for i, w := range works {
-		i, w := i, w
+	sem := make(chan struct{}, 8)
+	for i, j := range jobs {
+		i, j := i, j
 		wg.Add(1)
 		sem <- struct{}{}
 		go func() {
@@ -305,20 +326,15 @@ func RunProperty(args []string) int {
 			defer func() { <-sem }()
 			defer func() {
 				if r := recover(); r != nil {
-					results[i] = &UnitResult{Key: w.key, Refused: fmt.Sprintf("generator panic: %v", r), Unit: &Unit{W: NewWorld(FloatIEEE), Assumed: map[string]bool{}, Inlined: map[string]bool{}, Uncontracted: map[string]bool{}, UsedContracts: map[string]bool{}},
-						Obligations: []*Obligation{{Name: shortKey(w.key) + "#subset", Kind: "subset", Func: w.key, Desc: fmt.Sprintf("generator panic: %v", r), Queries: []*Query{{Goal: False, Result: "unknown", Backend: "generator"}}}}}
+					results[i] = &UnitResult{Key: jobKeys[i], Refused: fmt.Sprintf("generator panic: %v", r), Unit: &Unit{W: NewWorld(FloatIEEE), Assumed: map[string]bool{}, Inlined: map[string]bool{}, Uncontracted: map[string]bool{}, UsedContracts: map[string]bool{}},
+						Obligations: []*Obligation{{Name: shortKey(jobKeys[i]) + "#subset", Kind: "subset", Func: jobKeys[i], Desc: fmt.Sprintf("generator panic: %v", r), Queries: []*Query{{Goal: False, Result: "unknown", Backend: "generator"}}}}}
 				}
 			}()
-			results[i] = v.VerifyFunc(w.fn, w.opts, so)
+			results[i] = j()
 		}()
 	}
 	wg.Wait()
-
-	// lemmas
 	var lemmaRes []*UnitResult
-	for _, ln := range ps.Lemmas {
-		lemmaRes = append(lemmaRes, v.ProveLemma(ln, so))
-	}
 
 	// collect
 	var records []oblRecord
@@ -331,6 +347,7 @@ func RunProperty(args []string) int {
 	vacOK, vacBad, vacUnk := 0, 0, 0
 	var samples []map[string]interface{}
 	var knownSeen []string
+	printedFinding := map[string]bool{}
 	exitBroken := false
 	all := append(append([]*UnitResult(nil), results...), lemmaRes...)
 	for _, r := range all {
@@ -417,7 +434,7 @@ func RunProperty(args []string) int {
 			}
 			for _, o := range failing {
 				for _, f := range unitFindings {
-					if f.Obligation == o.Name && ok2[o.Name] && r2.CanaryOK+r2.CanaryUnknown > 0 {
+					if matchObl(f.Obligation, o.Name) && ok2[o.Name] && r2.CanaryOK+r2.CanaryUnknown > 0 {
 						excused[o.Name] = f.Text
 					}
 				}
@@ -425,7 +442,10 @@ func RunProperty(args []string) int {
 		}
 		for _, o := range failing {
 			if txt, ok := excused[o.Name]; ok {
-				fmt.Printf("KNOWN-FINDING: property=%s %s [%s]\n", id, txt, o.Name)
+				if !printedFinding[txt] {
+					printedFinding[txt] = true
+					fmt.Printf("KNOWN-FINDING: property=%s %s [%s]\n", id, txt, o.Name)
+				}
 				knownSeen = append(knownSeen, o.Name+": "+txt)
 				nDis++ // discharged outside the recorded input class
 				for i := range records {
@@ -621,4 +641,11 @@ func writeReplay(v *Verifier, path, prop string, vi *violation, scratch string, 
 	data, _ := json.MarshalIndent(rep, "", " ")
 	os.WriteFile(path, data, 0o644)
 	return found
+}
+
+func matchObl(pat, name string) bool {
+	if strings.HasSuffix(pat, "*") {
+		return strings.HasPrefix(name, strings.TrimSuffix(pat, "*"))
+	}
+	return pat == name
 }
